@@ -52,6 +52,11 @@ func compareWithExtendedDaemonsetSettingOverwrite(pod *corev1.Pod, node *NodeIte
 	if node.ExtendedDaemonsetSetting != nil {
 		specCopy := pod.Spec.DeepCopy()
 		for id, container := range specCopy.Containers {
+			// The Node resources annotation takes precedence over the ExtendedDaemonsetSetting when the pod is created;
+			// that overwrite is checked by compareNodeResourcesOverwriteMD5Hash.
+			if _, found, _ := podutils.NodeResourcesOverwrite(node.Node, pod.Namespace, pod.Labels[datadoghqv1alpha1.ExtendedDaemonSetNameLabelKey], container.Name); found {
+				continue
+			}
 			for _, container2 := range node.ExtendedDaemonsetSetting.Spec.Containers {
 				if container.Name == container2.Name {
 					for key, val := range container2.Resources.Limits {
